@@ -329,7 +329,7 @@ impl<const H: usize> Writer<H> {
         // Move the file cursor back as well, so the next append lands at the new write offset
         self.writer.seek(SeekFrom::Start(offset))?;
 
-        self.flushed_offset.set(offset);
+        self.flushed_offset.truncate_to(offset);
         self.write_offset = offset;
         #[cfg(feature = "verif")]
         crate::verif::point("seglog:set_len:lowered", crate::verif::fd_of(self.writer.get_ref()), offset);
